@@ -93,6 +93,15 @@ def subst(e: Optional[ast.expr], env: Dict[str, ast.expr]) -> Optional[ast.expr]
     return _Subst(env).visit(clone(e))
 
 
+def any_of(name: str) -> ast.Name:
+    """`name` holds one of the values assigned to it somewhere (loop / try): consumers may reason flow-insensitively."""
+    return ast.Name(id=f"<any:{name}>", ctx=ast.Load())
+
+
+def is_unknown(e: ast.AST) -> bool:
+    return any(isinstance(n, ast.Name) and (n.id == "<unknown>" or n.id.startswith("<any:")) for n in ast.walk(e))
+
+
 def _size(e: ast.AST) -> int:
     return sum(1 for _ in ast.walk(e))
 
@@ -297,9 +306,14 @@ class PathWalker:
         if isinstance(st, (ast.For, ast.While, ast.AsyncFor)):
             e2 = dict(env)
             for n in self.assigned_names([st]):
-                e2[n] = UNKNOWN
-            # exits inside the loop body are exits of the function
-            for c, e, k, kind, value, node in self.block(list(st.body), conds + [(ast.Constant(value="<loop>"), True)], dict(e2), list(calls), depth):
+                e2[n] = any_of(n)
+            # exits inside the loop body are exits of the function; inside the body the loop variable denotes itself
+            e_body = dict(e2)
+            if isinstance(st, (ast.For, ast.AsyncFor)):
+                for n in ast.walk(st.target):
+                    if isinstance(n, ast.Name):
+                        e_body.pop(n.id, None)
+            for c, e, k, kind, value, node in self.block(list(st.body), conds + [(ast.Constant(value="<loop>"), True)], e_body, list(calls), depth):
                 if kind in ("return", "raise"):
                     yield c, e, k, kind, value, node
             yield from cont(conds, e2, calls)
@@ -307,7 +321,7 @@ class PathWalker:
         if isinstance(st, ast.Try):
             e_after = dict(env)
             for n in self.assigned_names(st.body):
-                e_after[n] = UNKNOWN
+                e_after[n] = any_of(n)
             # normal completion of the body (+ else), then the rest
             for c, e, k, kind, value, node in self.block(list(st.body) + list(st.orelse) + list(st.finalbody), conds, dict(env), list(calls), depth):
                 if kind == "end":
@@ -348,6 +362,28 @@ class PathWalker:
             return
         # pass, global, nonlocal, import, delete, ...
         yield from cont(conds, env, calls)
+
+
+def flat_conds(conds) -> List[Tuple[ast.expr, bool]]:
+    """Path conditions as a flat conjunction of literals: `not (a or b)` -> not a, not b; `a and b` -> a, b."""
+    out: List[Tuple[ast.expr, bool]] = []
+
+    def add(t: ast.expr, pol: bool) -> None:
+        t = strip_cast(t)
+        if isinstance(t, ast.UnaryOp) and isinstance(t.op, ast.Not):
+            add(t.operand, not pol)
+        elif isinstance(t, ast.BoolOp) and isinstance(t.op, ast.And) and pol:
+            for v in t.values:
+                add(v, True)
+        elif isinstance(t, ast.BoolOp) and isinstance(t.op, ast.Or) and not pol:
+            for v in t.values:
+                add(v, False)
+        else:
+            out.append((t, pol))
+
+    for t, pol in conds:
+        add(t, pol)
+    return out
 
 
 def paths_of(mod: Module, cls: Optional[ast.ClassDef], fn: ast.FunctionDef, inline_depth: int = 2, no_inline: Optional[set] = None) -> List[Path]:
